@@ -63,9 +63,8 @@ func genFan(t *rapid.T, o fanOpts) (sim.FanSpec, map[int]int) {
 	f.OrigPwm = rapid.IntRange(0, 255).Draw(t, "origPwm")
 	if f.Kind == "hwmon" {
 		f.NoEnable = rapid.IntRange(0, 9).Draw(t, "noEnable") == 0
-		if !o.alwaysRpm {
-			f.NoRpm = rapid.IntRange(0, 9).Draw(t, "noRpm") == 0
-		}
+		// hwmon fans always have an RPM input: fan2go only binds hwmon entries to detected
+		// fanN_input features (internal/hwmon GetFans), so a pwm-only device is not configurable
 		lo, hi := 0, 255
 		if !o.fullLimits {
 			lo, hi = genLimits(t, o.minLtMax)
